@@ -426,6 +426,11 @@ Proof.
   inversion H; subst. split; auto. left. assumption.
 Qed.
 
+Lemma some_pair_inv {A B} (p : A * B) a b : Some p = Some (a, b) -> p = (a, b).
+Proof. congruence. Qed.
+
+Local Opaque name_of param_names.
+
 (* THE frame theorem of conditioning (code with the constant re-bound, i.e. inplace = false): for every class of operand,
    every keyword list, every heap: all old objects keep their semantic fields, and the result is fresh unless it is an
    EvaluatedDensity / Likelihood that already existed *)
@@ -447,8 +452,7 @@ Proof.
     { apply ext_setattr_fresh; [eapply ext_trans; eassumption | assumption]. }
     destruct (get (setattr h2 nl "distribution" (VRef nd)) nd) as [ond|]; [|discriminate].
     destruct (cond_vars hints (setattr h2 nl "distribution" (VRef nd)) ond).
-    - inversion H as [H1]. destruct (to_likelihood hints (setattr h2 nl "distribution" (VRef nd)) nd _ _) as [hh rr] eqn:Et.
-      inversion H1; subst. destruct (to_likelihood_spec _ _ _ _ _ _ E3 _ _ Et) as [E4 L4]. split; auto.
+    - apply some_pair_inv in H. destruct (to_likelihood_spec _ _ _ _ _ _ E3 _ _ H) as [E4 L4]. split; auto.
       left. destruct E3. lia.
     - inversion H; subst. split; auto. left. assumption. }
   destruct (is_joint_class (class_of o)).
@@ -473,17 +477,17 @@ Proof.
   { intros v nm hh rr Ht. destruct (to_likelihood_spec _ _ _ _ _ _ E2 _ _ Ht) as [E4 L4]. split; auto.
     left. destruct E2. lia. }
   destruct (lookup kw "_main_parameter") as [v|].
-  { inversion H as [H1]. destruct (to_likelihood hints h2 n v (name_of 50 h2 self)) as [hh rr] eqn:Et.
-    inversion H1; subst. eapply TL; eassumption. }
+  { apply some_pair_inv in H. eapply TL; exact H. }
   destruct (remove_strs (keys kw) processed).
   { inversion H; subst. split; assumption. }
   destruct (name_of 50 h2 self) as [nm|]; [|discriminate].
   destruct (lookup kw nm) as [v|].
-  { inversion H as [H1]. destruct (to_likelihood hints h2 n v (Some nm)) as [hh rr] eqn:Et.
-    inversion H1; subst. eapply TL; eassumption. }
+  { apply some_pair_inv in H. eapply TL; exact H. }
   destruct (forallb _ (keys kw)); [|discriminate].
   inversion H; subst. split; assumption.
 Qed.
+
+Local Transparent name_of param_names.
 
 (* Lognormal._normal getter: the writes go to the scratch Gaussian only *)
 Lemma lognormal_sync_frame h self o g og :
@@ -535,7 +539,8 @@ Proof.
   cbn [name_of]. rewrite (get_setattr_same _ _ _ _ _ Gn).
   rewrite class_of_setf by (intros X; discriminate). rewrite Hc.
   assert (Gf : getf (setf o "_original_density" (VRef self)) "_original_density" = Some (VRef self)).
-  { clear. induction o as [|[g w] o IH]; simpl; auto. destruct (str_eqb "_original_density" g) eqn:E; simpl; rewrite E; auto. }
+  { clear. induction o as [|[g w] o IH]; [reflexivity|]. cbn [setf].
+    destruct (str_eqb "_original_density" g) eqn:E; cbn [getf]; rewrite E; auto. }
   rewrite Gf. reflexivity.
 Qed.
 
